@@ -38,7 +38,7 @@ def handle (op : String) (args : List String) : Option String :=
       pure (match access m id e with
         | none => "rejected"
         | some ps => "touched " ++ showList (dedup (sortStr (ps.map hexOf))))
-  | "perm.effective", [site, umask] => do
+  | "perm.effective", site :: umask :: _ => do
       let umask ← parseOctal umask
       let s ← Perms.Site.ofName site
       pure (octal (Perms.effectiveAt s umask))
